@@ -10,7 +10,7 @@ use crate::simphys::Arena;
 use crate::softmmu::SoftMmu;
 use crate::trapemu;
 use crate::util::{Args, Report, Rng, J};
-use x86_64::structures::paging::mapper::{verif_p1_page, verif_p2_page, verif_p3_page, InvalidPageTable};
+use x86_64::structures::paging::mapper::{verif_p1_page, verif_p1_ptr, verif_p2_page, verif_p2_ptr, verif_p3_page, verif_p3_ptr, InvalidPageTable};
 use x86_64::structures::paging::{Page, PageTable, PageTableIndex, RecursivePageTable, Size1GiB, Size2MiB, Size4KiB};
 use x86_64::VirtAddr;
 
@@ -35,6 +35,21 @@ fn check_pure(rep: &mut Report, r: u16, p4: u16, p3: u16, p2: u16, p1: u16, all_
         let pg2m = Page::<Size2MiB>::containing_address(VirtAddr::new(va));
         let pg1g = Page::<Size1GiB>::containing_address(VirtAddr::new(va));
         ok &= verif_p3_page(pg2m, ri).start_address().as_u64() == e3 && verif_p2_page(pg2m, ri).start_address().as_u64() == e2 && verif_p3_page(pg1g, ri).start_address().as_u64() == e3;
+    }
+    // the pointers that unmap / update_flags / translate / clean_up dereference (hook H4) are those same addresses
+    let (q3, q2, q1) = (verif_p3_ptr(pg4k, ri) as u64, verif_p2_ptr(pg4k, ri) as u64, verif_p1_ptr(pg4k, ri) as u64);
+    if ok && (q3 != e3 || q2 != e2 || q1 != e1) {
+        let which = if q3 != e3 { "p3_ptr" } else if q2 != e2 { "p2_ptr" } else { "p1_ptr" };
+        rep.violation(&format!("{}|not-R-repeated-then-upper-indices", which), J::obj(vec![("recursive_index", J::U(rr)), ("page", J::hex(va)), ("expected", J::A(vec![J::hex(e3), J::hex(e2), J::hex(e1)])), ("got", J::A(vec![J::hex(q3), J::hex(q2), J::hex(q1)]))]));
+        return false;
+    }
+    if all_sizes && ok {
+        let pg2m = Page::<Size2MiB>::containing_address(VirtAddr::new(va));
+        let pg1g = Page::<Size1GiB>::containing_address(VirtAddr::new(va));
+        if verif_p3_ptr(pg2m, ri) as u64 != e3 || verif_p2_ptr(pg2m, ri) as u64 != e2 || verif_p3_ptr(pg1g, ri) as u64 != e3 {
+            rep.violation("pN_ptr|huge-size-variant|not-R-repeated-then-upper-indices", J::obj(vec![("recursive_index", J::U(rr)), ("page", J::hex(va))]));
+            return false;
+        }
     }
     if !ok {
         let which = if g3 != e3 { "p3_page" } else if g2 != e2 { "p2_page" } else if g1 != e1 { "p1_page" } else { "huge-size-variant" };
